@@ -19,7 +19,7 @@ void aws_fatal_assert(const char *cond_str, const char *file, int line) {
 #define GHOSTS() do { AL_GHOST_RESET(); g_on = true; g_k = nondet_size_t(); g_old = nondet_u8(); g_j = nondet_size_t(); g_src = nondet_u8(); \
                       g_va = nondet_u8(); g_vb = nondet_u8(); g_mm = nondet_size_t(); g_last_error = nondet_int(); g_raise_count = nondet_int(); \
                       r_al_on = true; r_length = nondet_size_t(); r_current_size = nondet_size_t(); r_dynamic = (nondet_int() != 0); \
-                      r2_length = nondet_size_t(); r2_current_size = nondet_size_t(); r2_dynamic = (nondet_int() != 0); } while (0)
+                      r_length2 = nondet_size_t(); r_current_size2 = nondet_size_t(); r_dynamic2 = (nondet_int() != 0); } while (0)
 #define SMALL 1000 /* canary split only: "small" vs "huge" index */
 
 /* ---------------------------------------------------------------- observers */
